@@ -91,6 +91,16 @@ CHECKS.update({
    text="Traces of concurrent drivers carry Stats/Len/Range/EstimatedSize results; TLC compares them with its own ledger at quiescent points: hits+misses = Get calls, hits = Gets answered from the map, Len = resident entries, "
         "EstimatedSize = their cost, Range visits each resident unexpired key once with its current value and stops when told. The model-level part is the accounting invariant of Store.tla.",
    note="Range/Len calls overlapping other calls are only checked per visit."),
+ "C18": dict(level="exploration", ref="4 C18",
+   technique="TLA+ spec KeyMap.tla (arbitrary hash function: TLC checks every function from keys to hash values, shard by hash, map by full key, single-flight by full key) model-checked by TLC; key-family traces of the real cache on both toolchains validated by TLC (KeyTrace map-per-class observer)",
+   text="TLC checks for every hash function (all collision patterns of 3 keys over 2 hash values and 2 shards) that reads return the map's value, a key lives only in its own shard and a load is never shared between different keys; "
+        "the key-family driver builds equal keys along different code paths for ints of several widths, bool, string, pointer, array, struct, struct with StringKey, a non-injective StringKey and concurrent loading Gets of colliding keys, on go1.23.5 (raw-memory hasher) and go1.26.8 (maphash), and TLC validates every Get, Len and Range against the map per key value.",
+   note="The type and value space is sampled; only the collision part is exhaustive (model level)."),
+ "C19": dict(level="other", ref="4 C19",
+   technique="TLA+ lock-domain table LockTable.tla; lock probes (TryLock / reader slots) recorded at every linearization hook of a running cache validated by TLC against the table; Go race detector over a mixed workload with hooks inert as supplementary oracle",
+   text="The lock domains (shard RW lock for key/value/cost/deadline and the map, policy mutex for links/flags/policy cost/wheel/sketch, both for removal of a map slot by eviction or expiry) are stated as a table in LockTable.tla; while clients, maintenance and ticker run, every hook point probes whether the lock the table requires is held and TLC validates all probes; "
+        "in addition the harness is built with -race and runs every API concurrently (SaveCache, Range, Close, loader, listener, hybrid store) with hooks inert, and any race report is a violation.",
+   note="A specification observes actions, not memory accesses: the probes bind the locking discipline only at hook points; everything else rests on the race detector run, which is dynamic happens-before analysis and not a TLA+ result."),
  "C20": dict(level="model_checking", ref="4 C20", technique=STORE_T,
    text="TLC checks the wait configuration of Store.tla (concurrent waiters, writers, every position of the markers relative to batch boundaries) for the barrier invariant and, with deadlock checking on, for return of every call; "
         "the schedules are replayed on the real Store (two markers in one batch, wake-ups racing markers still queued); TLC validates that at every Wait return all write events whose calls had returned before the Wait call have been applied, and that no call hangs.",
